@@ -83,6 +83,11 @@ type FuncV struct {
 
 type Tuple []Value
 
+// RTypeV is a reflect.Type (the payload behind *reflect.rtype).
+type RTypeV struct {
+	ti *TInfo
+}
+
 type IterV struct {
 	str   Str
 	isStr bool
